@@ -24,7 +24,8 @@ CLAIMS = {
          "three files, from_raw only under ManuallyDrop::new (borrow) or drop (unref), no entry point but the documented one "
          "consumes handles and that one does so unconditionally, failure -> INVALID mapping, operand validation in op1/op2/op3, no "
          "exported function returns one of its argument handles except the reference-taking *_ref functions, parallel C arrays are "
-         "zipped before filtering. "
+         "zipped before filtering; the bdd/bcdd/zbdd variants of each exported function are the same program up to the kind's names "
+         "(sibling comparison of normalised HIR, 2 reviewed deviations). "
          "Call-sequence equivalence with the Rust API is not decided.",
          "HIR/MIR who-may-call and typestate rules", "3.7, 4 C19"),
  "C16": ("E-VNM(.lockstep,.clone) + E-EVENT + E-UNITS: the name map's push/insert, displace/remove and free discipline on every path; the "
@@ -51,7 +52,7 @@ CLAIMS = {
          "apply_not (BDD, BCDD with all complement-tag combinations) and of the ZBDD set operations is interpreted on structured "
          "abstract operands in every level configuration and compared with the operator for all values of the atoms and decision "
          "variables (plus variable-order and cache-entry validity). Decides base cases, shortcuts, the inductive step and wiring -- "
-         "the induction itself, memory exhaustion and scheduling are not decided. E-TABLE.cof: DiagramRules::cofactors/cofactor of every kind (incl. the BCDD iterator) yield the children with the incoming tag applied, and cofactors_node/cofactors_edge hand them out in order. E-EVAL: eval_edge interpreted for one iteration of its argument loop (the value given last counts, injective encodings, no other entry touched) and one call of its walk (child for the stored value; complement flag / counter / terminals), plus the initial call.",
+         "the induction itself, memory exhaustion and scheduling are not decided. E-TABLE.cof: DiagramRules::cofactors/cofactor of every kind (incl. the BCDD iterator) yield the children with the incoming tag applied, and cofactors_node/cofactors_edge hand them out in order. E-TABLE.ctor: constant / var / not_var constructors (ST+MT) build the terminal resp. the node at var_to_level(var) with the children in the documented order. E-EVAL: eval_edge interpreted for one iteration of its argument loop (the value given last counts, injective encodings, no other entry touched) and one call of its walk (child for the stored value; complement flag / counter / terminals), plus the initial call.",
          "abstract interpretation of HIR case tables and wrappers over finite domains", "3.3, 3.4, 3.12, 4 C02"),
  "C04": ("E-TABLE.step + E-WRAP + E-UNITS + E-CACHE: quantifier wrappers and the BDD/BCDD apply-and-quantify dispatch (dualisation) tables are "
          "interpreted for all 8 operators and compared with Q v.(f op g) over all operand valuations; var/level units of the "
